@@ -209,6 +209,9 @@ def _fingerprint_model():
     return model
 
 
+REAL_CTX = [96, 100, 97]  # context lengths of the served test models: a multiple of 8, of 4, odd
+
+
 def _real_model(seed, eval_mode, pe):
     key = ("real", seed, eval_mode, pe)
     if key in _state:
@@ -216,7 +219,7 @@ def _real_model(seed, eval_mode, pe):
     S = _impl()
     torch, xm = S["torch"], S["xm"]
     cfg = xm.Config(
-        n_vocab=256, n_layer=2, d_model=16, d_head=8, n_ctx=96, positional_encoding=pe,
+        n_vocab=256, n_layer=2, d_model=16, d_head=8, n_ctx=REAL_CTX[seed % 3], positional_encoding=pe,
         output_head=S["heads"].PolicyValue, autoregressive_mask=False,
     )
     g = torch.Generator().manual_seed(1000 + seed)
@@ -703,16 +706,16 @@ def cls_schedules(ctx):
     from tak.model import encoding as _enc
 
     limit = []
-    for want in (96, 96, 95):
+    for k, want in enumerate((REAL_CTX[0], REAL_CTX[1], REAL_CTX[2] - 1, REAL_CTX[0] - 1, REAL_CTX[1] - 2, REAL_CTX[2])):
         hs = [rng.choice([0, 1, 1, 1]) for _ in range(36)]
         while 6 + sum(max(1, h) for h in hs) < want:
             hs[rng.randrange(36)] += 1
         board = [[_pc.Piece.cached(_pc.Color(rng.randrange(2)), _pc.Kind.FLAT) for _ in range(h)] for h in hs]
         p = tak.Position(size=6, stones=(tak.StoneCounts(3, 1), tak.StoneCounts(4, 0)), ply=rng.choice([40, 41]), board=board)
         if len(_enc.encode(p)) == want:
-            limit.append(ser.pos_str(p))
+            limit.append((k, ser.pos_str(p)))
     n_s = 120 if ctx.thorough else 30
-    for k, pl in enumerate(limit):
+    for k, pl in limit:
         yield "real-context-limit", {
             "mode": "cls", "arrivals": [[0, pl]] + [[int(t), rng.choice(positions)] for t in (0, 0, 500)], "latency_us": [2500],
             "model_seed": k % 3, "eval_mode": bool(k % 2), "pe": ["sin", "learned", "none"][k % 3],
